@@ -11,7 +11,9 @@ RULE = ("script bodies and name sets biased towards protocol look-alikes (lines 
 BODIES = [b"keep;\r\n", b"", b"OK\r\n", b"OK \"done\"\r\nkeep;\r\n", b"NO\r\n", b"BYE\r\n", b"{3}\r\nabc\r\n", b"{5}\r\n", b'"x" ACTIVE\r\n', b"no final newline",
           b"a\nb\n", b"a\rb\r", b"mixed\r\nlines\nhere\r", b"\xc3\xa9\xe2\x82\xac \xf0\x9f\x98\x80\r\n", b"\r\n\r\nleading blank\r\n", b"trailing blank\r\n\r\n\r\n",
           b'require "fileinto";\r\nif header :is "a" "OK" {\r\n  fileinto "NO";\r\n}\r\n', b"x" * 5000, b"tab\there\r\n", b"{2+}\r\nOK\r\n", b"\\\"\r\n",
-          b"form\x0cfeed\r\nnext\r\n", b"vt\x0bx\r\n", b"fs\x1cgs\x1drs\x1ex\r\n", b"nel \xc2\x85 x\r\n", b"ls \xe2\x80\xa8 ps \xe2\x80\xa9 x\r\n"]
+          b"form\x0cfeed\r\nnext\r\n", b"vt\x0bx\r\n", b"fs\x1cgs\x1drs\x1ex\r\n", b"nel \xc2\x85 x\r\n", b"ls \xe2\x80\xa8 ps \xe2\x80\xa9 x\r\n",
+          # a byte order mark is text like any other: first in the script, first in a later line, inside a line
+          b"\xef\xbb\xbfkeep;\r\n", b"keep;\r\n\xef\xbb\xbfstop;\r\n\xef\xbb\xbf\xef\xbb\xbfx\r\n", b"a\xef\xbb\xbfb\r\n"]
 NAMES = [b"a", b"main", b'q"uote', b"back\\slash", b"{5}", b"{3+}", b"OK", b"NO x", b"BYE", b"ACTIVE", b"x ACTIVE", b'"', b"\xc3\xa9t\xc3\xa9", b"sp ace", b"a b c", b"\\\"",
          b'my "best" rules', b'keep "this" ACTIVE', b'two "q" and "r"', b"form\x0cfeed"]
 
